@@ -115,6 +115,15 @@ theorem evalNode_cert (ef : Node → St → Res × St) (hefG : EvalG env lt ef) 
   intro m s hm hbelow
   have hgraph := evalNode_graph ef hefG m s hm.gi hm.idxok hm.len hbelow
   unfold evalNode at hgraph ⊢
+  by_cases ha : env.alive m.1 = true
+  case neg =>
+    -- the cells does not exist: the caller's code raises, nothing is touched
+    have ha' : env.alive m.1 = false := by simpa using ha
+    simp only [ha', Bool.false_eq_true, if_false]
+    refine ⟨Post.of_same hm ⟨rfl, rfl, rfl, rfl, rfl, rfl⟩ ⟨rfl, rfl, rfl, rfl⟩
+      ⟨rfl, rfl, [], by simp [St.newExc], by simp⟩, ?_⟩
+    intro w hw; cases hw
+  simp only [ha, if_true] at hgraph ⊢
   by_cases hc : env.cached m.1 = true
   · simp only [hc, if_true] at hgraph ⊢
     cases hl : lookup s.data m with
